@@ -128,6 +128,21 @@ CLAIMED = {
                  "heap over-read and two NULL-arithmetic crashes. The marshal/unmarshal round trip is declined.",
          "note": STD_NOTE + " Assumes evbuffer_pullup(buf,n) guarantees exactly n contiguous bytes.",
          "technique": "static analysis: failure-edge/null-test ordering (K12), extent-versus-guard templates on the CFG (K4)"},
+ "C33": {"level": "other",
+         "text": "Resolver-side parser: every one of the 24 reads of the wire buffer in name_parse/reply_parse is dominated by a bound test over the same index and size with the "
+                 "index untouched in between (linear normal form of the guard), output writes are capacity-checked, compression-pointer loops are counted and range-checked; "
+                 "reply data reaches reply_handle only after transaction-id lookup, QR test and question match (the match flag set only under the name comparison with the "
+                 "request's own question); allocations are tested before use; the CNAME string is owned correctly. Found and repaired two genuine defects (NULL reply buffer, "
+                 "CNAME leak). Semantic faithfulness of answers/TTLs is declined.",
+         "note": STD_NOTE,
+         "technique": "static analysis: dominating bound guards in linear normal form (K4), gating by dominance (K3), ownership/release path rules (K11/K12)"},
+ "C37": {"level": "other",
+         "text": "Server-side parser: bounds discipline of request_parse/name_parse as for C33; a known-bits rule reports mask tests made dead by an earlier masking of the same "
+                 "variable, and the NOTIMPL response must be guarded by the opcode bits of the received flags with the user callback on the other edge; the length given to "
+                 "request_parse is the receive result (UDP) or equals the allocated TCP message size; allocations are tested and released on every failure exit. Found and "
+                 "repaired the dead opcode test (NOTIMPL was unreachable).",
+         "note": STD_NOTE,
+         "technique": "static analysis: bound guards (K4), known-bits dead-guard detection, dominance gating (K3), value provenance (K8), release on exits (K11)"},
 }
 
 NOT_APPLICABLE = {
